@@ -239,7 +239,8 @@ class Executor:
 
     def heap_array(self, st: State, key: str, sort: z3.SortRef) -> z3.ExprRef:
         if key not in st.heap:
-            st.heap[key] = z3.Const(f"H0_{key}", z3.ArraySort(smt.Ref, sort))
+            name = smt.fresh_name(f"H_{key}") if key in st.ghost.get("havocked_heaps", ()) else f"H0_{key}"
+            st.heap[key] = z3.Const(name, z3.ArraySort(smt.Ref, sort))
         return st.heap[key]
 
     def field_td(self, owner: ClassInfo, decl: Any) -> smt.TD:
